@@ -119,7 +119,7 @@ func c19(r *core.Run) {
 				}
 			}
 		})
-		allInstrs(initFn, func(in ssa.Instruction) {
+		readIn := func(in ssa.Instruction) {
 			switch x := in.(type) {
 			case *ssa.FieldAddr:
 				if core.TypeName(x.X.Type()) == "x/"+m+"/types.GenesisState" {
@@ -130,7 +130,12 @@ func c19(r *core.Run) {
 					read[core.FieldName(x.X.Type(), x.Field)] = true
 				}
 			}
-		})
+		}
+		// InitGenesis itself and the helpers it hands the genesis state to
+		for _, f := range p.Summary(initFn).Funcs {
+			allInstrs(f, readIn)
+		}
+		allInstrs(initFn, readIn)
 		for i := 0; i < st.NumFields(); i++ {
 			f := st.Field(i).Name()
 			if strings.HasPrefix(f, "XXX_") {
